@@ -5,7 +5,8 @@ CHECK = {
         "lock-leak search is single-threaded: a lock that cannot be try-locked while no call is in progress was leaked by the call just made; every call is issued only after all probes passed, so a leak is reported instead of deadlocking the next call",
         "a call that deadlocks against itself (double lock inside one call) shows as a time-out (inconclusive), not as a violation",
         "probes cover the mutex of every directory object the case has a reference to, fileBackedFile.lock of every pool-backed file created so far, and the NFS handle pool lock; locks of other packages are probed by their own harnesses",
-        "same input restrictions as C13 (no rename of a directory into its own subtree, no colliding names in one CreateChildren call, unique symlink targets)",
+        "same input restrictions as C13 (ASSUMPTION: no rename of a directory into its own subtree, which the code leaves to the kernel / NFS client; leaf I/O calls only on files opened with the matching share bit)",
+        "calls probed in addition to C13's grammar: InstallHooks, VirtualApply (payload known / unknown to the fetcher) and VirtualSetAttributes on directories in every state (uninitialised, initialised, removed); on pool-backed files VirtualOpenSelf (also with O_TRUNC, on unlinked files, with share masks 0/4/7), VirtualRead, VirtualWrite, VirtualSeek, VirtualAllocate, VirtualSetAttributes (size, permissions, chown) and VirtualClose, each with a generated one-shot failure of the pool file underneath (ReadAt, WriteAt incl. short writes, Truncate, GetNextRegionOffset); every lock is probed after every single call",
     ],
     "tests": [
         T("vfsdir", "TestC14DirectoryLockLeak",
@@ -14,7 +15,7 @@ CHECK = {
     ],
 }
 META = {
-    "text": "Generated call histories over the real InMemoryPrepopulatedDirectory with injected failures (InitialContentsFetcher, file allocator, file pool, symlink factory), calls on removed and uninitialised directories and every bulk call; after every call every directory, file and handle-pool lock must be free (verif-tagged TryLock probes). Error returns reached are listed per (function, code). Exploration only: paths not reached are not covered.",
+    "text": "Generated call histories over the real InMemoryPrepopulatedDirectory and its pool-backed files with injected failures (InitialContentsFetcher incl. colliding names, file allocator, file pool, pool file I/O, symlink factory), calls on removed and uninitialised directories, every bulk call, InstallHooks/VirtualApply/VirtualSetAttributes and every Leaf call; after every call every directory, file and handle-pool lock must be free (verif-tagged TryLock probes). Error returns reached are listed per (function, code). Exploration only: paths not reached are not covered.",
     "design_ref": "6/C14",
     "note": "Part (a) of DESIGN 6/C14 for package virtual's directory code. LockPile PBT (b) and concurrent stress (c) are separate part files. Trusts the TryLock probes in verif_hooks.go.",
     "technique": "stateful property testing (rapid) with fault injection and lock-free-at-quiescence probes after every call",
